@@ -19,7 +19,7 @@ func init() {
 	register(&run.Check{
 		ID:    "C02",
 		Level: "model_checking",
-		Rule: "bounded-exhaustive: every attribute list of length <=2 (thorough 3) over a 37-attribute alphabet (incl. values that match the policies' element patterns) on every policy, and one level deeper on three element classes with every eighth generated policy, (allowed / disallowed / duplicated / unquoted / single-quoted / valueless / entity-encoded / data-* shapes) on six element classes, as start and self-closing tags, " +
+		Rule: "bounded-exhaustive: every attribute list of length <=2 (thorough 3) over a 42-attribute alphabet (incl. values that match the policies' element patterns) on every policy, and one level deeper on three element classes with every twelfth generated policy, (allowed / disallowed / duplicated / unquoted / single-quoted / valueless / entity-encoded / data-* shapes) on six element classes, as start and self-closing tags, " +
 			"crossed with a generated slice of policies that crosses rule scope (element / element-pattern / global) x value pattern yes/no x overlapping second rule x AllowNoAttrs x data attributes, plus named policies with forced attributes and style rules; " +
 			"plus the generic fragment layers. Oracle: every attribute of every output tag (tokenizer and DOM) is justified by a rule of the spec view, a well-formed data-* name (HTML's custom data attribute: XML-compatible, no upper case), a governed style attribute or a forced attribute; a tag with no attribute must be bare-allowed. " +
 			"non-trivial = the input tag carried at least one attribute that was removed or the tag was dropped.",
@@ -357,10 +357,10 @@ func runC02(c *run.Ctx) {
 			}
 		}
 	})
-	// layer B: one level deeper on the explicit and the pattern element, every eighth generated policy plus the named ones
+	// layer B: one level deeper on the explicit and the pattern element, every twelfth generated policy plus the named ones
 	var fifth []built
 	for i := range bs {
-		if i%8 == 0 || !strings.HasPrefix(bs[i].S.Name, "c02-") {
+		if i%12 == 0 || !strings.HasPrefix(bs[i].S.Name, "c02-") {
 			fifth = append(fifth, bs[i])
 		}
 	}
